@@ -91,6 +91,25 @@ def rand_policy(rng, ssrc=None, ssrc_type=SSRC_SPECIFIC, valid=True, mki=None, s
                cryptex=cryptex, enc_xtn=enc_xtn, use_key_field=use_key_field, valid=valid)
 
 
+def bswap32(x):
+    return int.from_bytes((x & 0xffffffff).to_bytes(4, "big"), "little")
+
+
+def ssrc_pool(rng, n):
+    """n distinct SSRCs with structure: byte-reversed pairs (the stream list keeps SSRCs in network byte order, the API takes
+    host order), byte palindromes, values differing in one byte, 1 and 0xfffffffe"""
+    base = [rng.randrange(2, 1 << 32) for _ in range(max(n // 2, 1))]
+    pool = list(base)
+    pool += [bswap32(x) for x in base[:max(n // 3, 1)]]
+    pool += [0x12121212, 0xabcddcba, 1, 0x01000000, 0xfffffffe, base[0] ^ 0xff, base[0] ^ 0xff000000]
+    out = []
+    for x in pool:
+        if x not in out and 1 <= x < (1 << 32):
+            out.append(x)
+    rng.shuffle(out)
+    return out[:max(n, 4)]
+
+
 def default_policy(rng, ssrc, **kw):
     d = dict(ssrc_type=SSRC_SPECIFIC, ssrc=ssrc, rtp=cp(), rtcp=cp(), keys=[(rand_key(rng, 30), b"")], use_mki=False,
              mki_size=0, window=128, allow_repeat=False, cryptex=False, enc_xtn=b"", use_key_field=True, valid=True)
@@ -162,11 +181,11 @@ def rand_rtcp(rng, ssrc):
     return rtcp_packet(ssrc, rand_key(rng, n), pt=rng.choice([200, 201, 202]))
 
 
-def replay_history(rng, tier, rtcp=False, n_ssrc=None, steps=None):
+def replay_history(rng, tier, rtcp=False, n_ssrc=None, steps=None, common_roc=None, damaged=0.0):
     """sender session 1 / receiver session 2; adversarial delivery order.  Annotations:
        # S <ssrc> <idx>            after a protect (true index of the packet just made)
        # D <ssrc> <idx> <line>     after an unprotect delivering the packet made at <line>"""
-    wildcard = rng.random() < 0.4
+    wildcard = rng.random() < 0.4 and common_roc is None
     n_ssrc = n_ssrc or rng.choice([1, 1, 2, 3])
     ssrcs = [rng.randrange(2, 1 << 32) for _ in range(n_ssrc)]
     ws = rng.choice([0, 64, 65, 96, 127, 128, 1024, 32767])
@@ -181,6 +200,10 @@ def replay_history(rng, tier, rtcp=False, n_ssrc=None, steps=None):
             L.append(p.line(1 + j))
         ids = " ".join(H(1 + j) for j in range(len(pols)))
         L += [f"create 1 {ids}", f"create 2 {ids}"]
+    if common_roc is not None:
+        # sender and receiver are told the same starting ROC (srtp_stream_set_roc on both sides) before any traffic
+        for s in ssrcs:
+            L += [f"setroc 1 {H(s)} {H(common_roc)}", f"setroc 2 {H(s)} {H(common_roc)}", f"# C {s:x} {common_roc:x}"]
     eff_ws = 128 if ws == 0 else ws
     hi = {s: None for s in ssrcs}           # sender's highest index
     pool = {s: [] for s in ssrcs}           # (line, idx)
@@ -205,7 +228,7 @@ def replay_history(rng, tier, rtcp=False, n_ssrc=None, steps=None):
         else:
             if not pool[s] or rng.random() < 0.45:
                 if hi[s] is None:
-                    idx = start[s]
+                    idx = start[s] + ((common_roc or 0) << 16)
                 else:
                     # the sender's own estimator follows a jump only below 2^15 (the property's premise on both sides)
                     idx = hi[s] + min(rng.choice([1, 1, 1, 2, 3, eff_ws - 1, eff_ws, eff_ws + 1, 5000, 30000]), 32767)
@@ -215,6 +238,9 @@ def replay_history(rng, tier, rtcp=False, n_ssrc=None, steps=None):
                 pool[s].append((len(L), idx)); L.append(f"# S {s:x} {idx:x}")
             else:
                 line, idx = rng.choice(pool[s][-8:] if rng.random() < 0.7 else pool[s])
+                if rng.random() < damaged:
+                    # a damaged copy arrives first (rejected; must leave the stream's index state alone)
+                    L.append(pkt_op("unprotect", 2, f"@{line:x}~{rng.randrange(96, 8 * 28):x}", cap=100)); L.append("# X")
                 L.append(pkt_op("unprotect", 2, f"@{line:x}", cap=100)); L.append(f"# D {s:x} {idx:x} {line:x}")
                 if rng.random() < 0.2:
                     L.append(f"getroc 2 {H(s)}"); L.append(f"# R {s:x}")
@@ -232,11 +258,14 @@ def replay_monitor(script, c, rtcp=False):
         if l.startswith("policy"):
             ws = int(l.split()[20], 16); break
     refs = {}
+    base = {}
     for i, l in enumerate(sl, 1):
         t = l.split()
         if len(t) < 2 or t[0] != "#":
             continue
-        if t[1] == "D":
+        if t[1] == "C":
+            base[t[2]] = int(t[3], 16) << 16
+        elif t[1] == "D":
             s, idx, line = t[2], int(t[3], 16), int(t[4], 16)
             src = out.get(line, [])
             o = out.get(i - 1, [])
@@ -248,7 +277,8 @@ def replay_monitor(script, c, rtcp=False):
                 # an authentic packet authenticates only under its own index: a second acceptance is a second acceptance of that index
                 hits.append({"what": f"{'SRTCP' if rtcp else 'SRTP'} receiver accepted the same packet index twice",
                              "signature": f"{'srtcp' if rtcp else 'srtp'}-api-accepted-twice", "detail": f"line {i-1}: index {idx:x}"}); return hits
-            if not rtcp and ((ref.seen and abs(idx - ref.hi) >= 32768) or (not ref.seen and idx >= 65536)):
+            b0 = base.get(s, 0)
+            if not rtcp and ((ref.seen and abs(idx - ref.hi) >= 32768) or (not ref.seen and not (b0 <= idx < b0 + 65536))):
                 # beyond what the index estimator can follow: outside the property's premise;
                 # keep the reference in step with what the receiver did
                 if ok and idx not in ref.seen:
